@@ -27,6 +27,7 @@ mod c09;
 mod c17;
 mod c15;
 mod c13;
+mod c08;
 
 use std::path::PathBuf;
 
@@ -75,6 +76,7 @@ fn main() {
     "c17" => c17::run(&o),
     "c15" => c15::run(&o),
     "c13" => c13::run(&o),
+    "c08" => c08::run(&o),
     "c05" => c05::run_stream(&o, "c05"),
     "c04" => c05::run_stream(&o, "c04"),
     s => { eprintln!("unknown stream {s}"); std::process::exit(2); }
